@@ -50,8 +50,9 @@ P = {
 
 
 NORMAL = (" All rules run on the tree after semantics-preserving normal forms (expansion of helpers that are not in the frozen inventory of the"
-          " reference tree and of twelve small reference helpers, expansion of local aliases of final attributes, folding of single-use temporaries), so"
-          " extract-method / inline-method / alias / temporary refactorings do not change the verdict. No repository code is imported or executed.")
+          " reference tree and of fourteen small reference helpers, expansion of local aliases of final attributes, folding of single-use temporaries, folding of"
+          " newly introduced named constants, binding of newly added keyword parameters nobody passes), so extract-method / inline-method / alias / temporary /"
+          " named-constant / added-parameter changes do not change the verdict. No repository code is imported or executed.")
 
 
 # deciding methods added or replaced during the build (DESIGN 9.6 / 9.7): evaluated decision tables take the place of
